@@ -1,6 +1,7 @@
 package main
 
 import (
+	"regexp"
 	"go/ast"
 	"go/token"
 	"go/types"
@@ -288,6 +289,11 @@ func moduleDir(repo, pkg string) (dir, pattern string) {
 	return repo, "." + rel
 }
 
+var ordRe = regexp.MustCompile(`\[\d+(:|\])`)
+
+// normOb drops the ordinals of calls, loops and safety sites from an obligation name.
+func normOb(n string) string { return ordRe.ReplaceAllString(n, "[$1") }
+
 func cmdCheck(args []string) int {
 	fs := flag.NewFlagSet("check", flag.ExitOnError)
 	o := &Options{}
@@ -502,6 +508,9 @@ func runCheck(o *Options) (int, *Evidence) {
 			}
 			if strings.Contains(body, "(pset ") {
 				pre += msumRAxioms
+			}
+			if strings.Contains(body, "(pow2m1 ") {
+				pre += pow2m1Axioms
 			}
 			jobs = append(jobs, &job{q: q, text: pre + body})
 		}
@@ -728,6 +737,12 @@ func runCheck(o *Options) (int, *Evidence) {
 		_ = os.WriteFile(filepath.Join(o.verif, "specs", "baseline", o.prop+".locals.json"), append(hb, '\n'), 0o644)
 	}
 	known := readKnown(filepath.Join(o.verif, "known_findings.txt"), o.prop)
+	// an edit that adds or removes a call, loop or arithmetic operation renumbers the ones after
+	// it: an obligation also counts as "on the baseline" when it is there up to those ordinals
+	baselineNorm := map[string]bool{}
+	for n := range baseline {
+		baselineNorm[normOb(n)] = true
+	}
 
 	nOb, nDis := 0, 0
 	var violations, undec, vac []string
@@ -770,7 +785,7 @@ func runCheck(o *Options) (int, *Evidence) {
 			undec = append(undec, "PREREQUISITE-FAILED "+n+" ("+ob.Status+")")
 			continue
 		}
-		if ob.Status == "failed-unknown" && !baseline[n] {
+		if ob.Status == "failed-unknown" && !baseline[n] && !baselineNorm[normOb(n)] {
 			undec = append(undec, "UNDISCHARGED "+n+" (not on the baseline list; "+ob.Status+")")
 			continue
 		}
